@@ -60,7 +60,8 @@ def showRec (r : MolRec) : String :=
   let sa := sepBy "," (r.stereoAtoms.map fun (k, b) => s!"{k}:{if b then 1 else 0}")
   let sb := sepBy ";" ((sortByKey r.stereoBonds).map fun (k, d) => s!"{k}>" ++ sepBy "," (d.map fun (m, b) => s!"{m}:{if b then 1 else 0}"))
   let mp := sepBy "," (r.mapping.map toString)
-  s!"atoms={atoms} bonds={bonds} order={order} satoms={sa} sbonds={sb} map={mp}"
+  let stt := sepBy "," (r.starts.map toString)
+  s!"atoms={atoms} bonds={bonds} order={order} satoms={sa} sbonds={sb} starts={stt} map={mp}"
 
 def showOut (m : MolOut) : String :=
   let atoms := sepBy "," (m.atoms.map fun (n, z, iso, ch, _, _) => s!"{n}:{z}:{showOpt iso}:{ch}")
